@@ -124,6 +124,42 @@ def gen_spec(rng, kind="daily", shape=None, tz=None, noise=None):
     raise RuntimeError("generator could not draw a building of the family")
 
 
+# corners of the family on which the fit is known to be most fragile (found by running the parameter grid against
+# deliberately damaged copies of the package: regularisation x1000, balance-point search skipped, smoothing forced on,
+# narrowed intercept bounds); the unchanged code recovers all of them with NRMSE < 2.5 %
+SENTINELS = [
+    # (shape, parameters, at most this many days in the scarcest active regime (None = any))
+    ("both", dict(base=5.0, bh=1.0, bph=52.0, bc=0.3, bpc=69.0), None),     # small base load, weak cooling
+    ("cool", dict(base=5.0, bh=0.0, bph=52.0, bc=3.0, bpc=69.0), None),     # small base load, steep cooling
+    ("cool", dict(base=5.0, bh=0.0, bph=58.0, bc=1.0, bpc=64.0), None),
+    ("both", dict(base=5.0, bh=3.0, bph=45.0, bc=3.0, bpc=64.0), None),     # steep on both sides of a wide band
+    ("cool", dict(base=20.0, bh=0.0, bph=58.0, bc=3.0, bpc=64.0), None),
+    ("both", dict(base=20.0, bh=1.0, bph=58.0, bc=1.0, bpc=64.0), None),    # narrow temperature-independent band
+    ("both", dict(base=50.0, bh=3.0, bph=58.0, bc=3.0, bpc=64.0), None),
+    # a weak slope seen on barely more than a month of days (what over-regularisation erases first)
+    ("cool", dict(base=5.0, bh=0.0, bph=50.0, bc=0.3, bpc=75.0), 45),
+    ("cool", dict(base=5.0, bh=0.0, bph=50.0, bc=0.3, bpc=75.0), 45),
+    ("heat", dict(base=5.0, bh=0.5, bph=48.0, bc=0.0, bpc=70.0), 45),
+]
+
+
+def sentinel_specs(rng, kind="daily"):
+    out = []
+    for sh, params, few_max in SENTINELS:
+        for _try in range(400):
+            s = gen_spec(rng, kind, shape=sh)
+            s.update(params)
+            T = baseline_temps(s)
+            rd = regime_days(s, T)
+            few = min(v for v in (rd["cold"], rd["hot"]) if v is not None)
+            if in_family(s, T) and (few_max is None or few <= few_max):
+                out.append(s)
+                break
+        else:
+            raise RuntimeError("no weather year of the family for sentinel %r" % (params,))
+    return out
+
+
 def grid_specs(rng, kind, per_cell=1):
     """the parameter grid of the thorough tier: corners and centres of the stated ranges x shapes"""
     out = []
@@ -209,7 +245,14 @@ def _rows(pr, spec, obs_col=True):
 def _hook(res, seg, nmin):
     """what the OptimizedResult hook kept of one optimiser call + the data the box was built from"""
     b = getattr(res, "_verif_bnds", None)
-    return {"key": res.model_key, "coef_id": list(getattr(res, "_verif_coef_id", []) or []),
+    # does the stored (read-back) model reproduce the values the optimiser scored?  (cause H of DESIGN section 6:
+    # the raw vector is re-ordered before the smoothing transformation on read-back, after it when scoring)
+    try:
+        rb = res.eval(np.asarray(res.T, dtype=float))[0]
+        rgap = float(np.max(np.abs(np.asarray(rb) - np.asarray(res.model))))
+    except Exception:  # noqa
+        rgap = None
+    return {"key": res.model_key, "readback_gap": rgap, "coef_id": list(getattr(res, "_verif_coef_id", []) or []),
             "bnds": None if b is None else [[float(v) for v in row] for row in np.asarray(b)],
             "x_raw": None if getattr(res, "_verif_x_raw", None) is None else [float(v) for v in res._verif_x_raw],
             "T": [float(v) for v in seg["temperature"].values], "obs": [float(v) for v in seg["observed"].values],
@@ -257,6 +300,18 @@ def fit_case(spec):
             out["base"]["index"] = [int(t.value) for t in pr.index[pr["predicted"].notna() & pr["temperature"].notna()]]
         pr2 = model.predict(rd, ignore_disqualification=True)
         out["year2"] = _rows(pr2, spec, obs_col=False)
+        # the 7-vector full_model is called with, per stored sub-model (as DailyModel._predict_submodel builds it)
+        from opendsm.eemeter.models.daily.base_models.full_model import get_full_model_x
+        from opendsm.eemeter.models.daily.utilities.base_model import get_smooth_coeffs
+        out["xeff"] = {}
+        for key, sm in model.params.submodels.items():
+            tc = sm.temperature_constraints
+            x = get_full_model_x(sm.coefficients.model_key, sm.coefficients.to_np_array(), tc["T_min"], tc["T_max"],
+                                 tc["T_min_seg"], tc["T_max_seg"])
+            if sm.coefficients.model_key == "hdd_tidd_cdd_smooth":
+                hb, hk, cb, ck = get_smooth_coeffs(x[0], x[2], x[3], x[5])
+                x = [hb, x[1], hk, cb, x[4], ck, x[6]]
+            out["xeff"][key] = [float(v) for v in x]
         nmin = model.settings.segment_minimum_count
         out["final"] = {}
         out["initial"] = {}
